@@ -1,6 +1,7 @@
 package __PKG__
 
 import (
+	"github.com/cosmos/cosmos-sdk/types/query"
 	sdk "github.com/cosmos/cosmos-sdk/types"
 	"github.com/medibloc/panacea-core/v2/x/aol/types"
 )
@@ -95,4 +96,107 @@ func vHarnessWritersListing() {
 		}
 	}
 	vCheck(len(res.WriterAddresses) == cnt, "C13: the listing has exactly as many items as the topic has writers (no cross-talk, none twice)")
+}
+
+// C13 paging: a page requested with any offset / limit / count_total / direction is exactly
+// the corresponding slice of the complete listing (the SDK pagination code is executed).
+func vPage(site string) *query.PageRequest {
+	o, l := vNondetU64(site+".offset"), vNondetU64(site+".limit")
+	vAssume(o <= 3 && l >= 1 && l <= 3)
+	return &query.PageRequest{Offset: o, Limit: l, CountTotal: vNondetBool(site + ".countTotal"), Reverse: vNondetBool(site + ".reverse")}
+}
+
+func vHarnessTopicsPaging() {
+	ctx, k := vEnvAol()
+	q := vNondetAddr("qOwner")
+	qa := vDec(q)
+	n := 0
+	for i := 0; i < vListN; i++ {
+		name := vNondetAtom("t")
+		vAssume(len(name) <= 255)
+		if vNondetBool("has") {
+			tk := types.TopicCompositeKey{OwnerAddress: qa, TopicName: name}
+			vAssume(!k.HasTopic(ctx, tk))
+			k.SetTopic(ctx, tk, types.Topic{TotalRecords: vNondetU64("tr")})
+			n++
+		}
+	}
+	full, err := k.Topics(sdk.WrapSDKContext(ctx), &types.QueryTopicsRequest{OwnerAddress: q})
+	vAssume(err == nil)
+	vCheck(len(full.TopicNames) == n, "C13: the unpaginated listing has every topic of the owner")
+	pr := vPage("page")
+	page, perr := k.Topics(sdk.WrapSDKContext(ctx), &types.QueryTopicsRequest{OwnerAddress: q, Pagination: pr})
+	vCheck(perr == nil, "C13: a paged Topics query succeeds")
+	if perr != nil {
+		return
+	}
+	vCover("topics page answered")
+	lo, hi := int(pr.Offset), int(pr.Offset+pr.Limit)
+	if lo > n {
+		lo = n
+	}
+	if hi > n {
+		hi = n
+	}
+	vCheck(len(page.TopicNames) == hi-lo, "C13: a page has exactly min(limit, remaining) items (no item twice, none skipped)")
+	if len(page.TopicNames) == hi-lo {
+		for i := lo; i < hi; i++ {
+			j := i
+			if pr.Reverse {
+				j = n - 1 - i
+			}
+			vCheck(page.TopicNames[i-lo] == full.TopicNames[j], "C13: page items are the corresponding slice of the complete listing (in the requested direction)")
+		}
+	}
+	if pr.CountTotal {
+		vCheck(page.Pagination.Total == uint64(n), "C13: count_total reports the number of topics")
+	}
+	if n >= 2 && hi-lo >= 1 && lo >= 1 {
+		vCover("a later page of several topics")
+	}
+}
+
+func vHarnessWritersPaging() {
+	ctx, k := vEnvAol()
+	q := vNondetAddr("qOwner")
+	qa := vDec(q)
+	qt := vNondetAtom("qTopic")
+	vAssume(len(qt) <= 255)
+	n := 0
+	for i := 0; i < vListN; i++ {
+		w := vDec(vNondetAddr("w"))
+		if vNondetBool("has") {
+			wk := types.WriterCompositeKey{OwnerAddress: qa, TopicName: qt, WriterAddress: w}
+			vAssume(!k.HasWriter(ctx, wk))
+			k.SetWriter(ctx, wk, types.Writer{Moniker: vNondetAtom("m")})
+			n++
+		}
+	}
+	full, err := k.Writers(sdk.WrapSDKContext(ctx), &types.QueryWritersRequest{OwnerAddress: q, TopicName: qt})
+	vAssume(err == nil)
+	vCheck(len(full.WriterAddresses) == n, "C13: the unpaginated listing has every writer of the topic")
+	pr := vPage("page")
+	page, perr := k.Writers(sdk.WrapSDKContext(ctx), &types.QueryWritersRequest{OwnerAddress: q, TopicName: qt, Pagination: pr})
+	vCheck(perr == nil, "C13: a paged Writers query succeeds")
+	if perr != nil {
+		return
+	}
+	vCover("writers page answered")
+	lo, hi := int(pr.Offset), int(pr.Offset+pr.Limit)
+	if lo > n {
+		lo = n
+	}
+	if hi > n {
+		hi = n
+	}
+	vCheck(len(page.WriterAddresses) == hi-lo, "C13: a page has exactly min(limit, remaining) items (no item twice, none skipped)")
+	if len(page.WriterAddresses) == hi-lo {
+		for i := lo; i < hi; i++ {
+			j := i
+			if pr.Reverse {
+				j = n - 1 - i
+			}
+			vCheck(page.WriterAddresses[i-lo] == full.WriterAddresses[j], "C13: page items are the corresponding slice of the complete listing (in the requested direction)")
+		}
+	}
 }
